@@ -210,10 +210,12 @@ func (w *world) stepFetch(n *node, id string, withPeer bool, race bool) {
 					w.stepDeliver(pos)
 					// the deletion worker is notified by the state update and is
 					// just as concurrent with the fetch as the settings update
-					if w.rng.Intn(2) == 0 {
+					if w.midDeleter == 1 || (w.midDeleter == 0 && w.rng.Intn(2) == 0) {
 						w.count("race.deleter_run_mid_fetch", 1)
 						w.mon.runDeleter(n)
 					}
+					// look at the node inside the window as well
+					w.mon.observe(n, "live", "mid-fetch")
 					return
 				}
 			}
